@@ -107,7 +107,7 @@ def _one(ctx: Any, case: Dict[str, Any], name: str) -> None:
         if case.get("to") and not all(clean_cut(h, date.fromisoformat(case["to"])) for h in hists.values()):
             case = dict(case, to=None)
         ws.write(hists)
-        args = ["-g", case["language"]] + (["-f", case["from"]] if case.get("from") else []) + (["-t", case["to"]] if case.get("to") else [])
+        args = ["-g", case["language"]] + (["-f", case["from"]] if case.get("from") else []) + (["-t", case["to"]] if case.get("to") else []) + list(case.get("extra_args", []))
         res = ws.run("jp", args, audit=False)
         ctx.count("executions")
         ctx.count("valid_cases")
@@ -152,7 +152,15 @@ def run_shard(ctx: Any) -> None:
         index = ctx.shard + i * ctx.nshards
         rng = ctx.rng("case", index)
         case = make_case(rng, index)
-        if not _valid(case["hists"]):
+        if index % 8 == 7:
+            # one of the repository's own example inputs (run with -n: most of them overdraw an account)
+            from rpv.checks.fullreport_common import corpus_case
+
+            shipped = corpus_case(ctx.rng("corpus", index), index // 8)
+            if shipped is not None:
+                case = {"corpus": shipped["corpus"], "hists": shipped["hists"], "language": rng.choice(("en", "kl")), "from": None, "to": None, "extra_args": ["-n"]}
+                ctx.count("shipped_example_input_cases")
+        if not case.get("corpus") and not _valid(case["hists"]):
             ctx.count("generated_invalid")
             continue
         _one(ctx, case, f"c20-{index}")
